@@ -44,6 +44,16 @@ def mk_leaf(kind):
 OPS = [Ball, Box, Sphere, Translation, Rotation, lambda: IsotropicDeformation(0.1)]
 
 
+INTER = []       # (operand object, its elements when it was used as an operand): + and * must leave their operands alone
+
+
+def elems(obj):
+    for attr in ("moves", "operations"):
+        if hasattr(obj, attr):
+            return [id(m) for m in getattr(obj, attr)]
+    return None
+
+
 def build(tree, pool, mk):
     tag = tree[0]
     if tag == "L":
@@ -52,14 +62,18 @@ def build(tree, pool, mk):
             pool[idx] = mk(kind)
         return pool[idx]
     if tag == "A":
-        return build(tree[1], pool, mk) + build(tree[2], pool, mk)
+        a, b = build(tree[1], pool, mk), build(tree[2], pool, mk)
+        INTER.extend([(a, elems(a)), (b, elems(b))])
+        return a + b
     if tag == "M":
         n = tree[2]
+        a = build(tree[1], pool, mk)
+        INTER.append((a, elems(a)))
         if isinstance(n, dict):  # special multipliers
             n = {"float": 2.0, "str": "a", "none": None, "rmul": 2}[n["py"]]
             if tree[2]["py"] == "rmul":
-                return 2 * build(tree[1], pool, mk)
-        return build(tree[1], pool, mk) * n
+                return 2 * a
+        return a * n
     raise ValueError(tag)
 
 
@@ -75,6 +89,7 @@ def main():
     out = []
     for case in req["cases"]:
         pool = {}
+        del INTER[:]
         try:
             if case["domain"] == "move":
                 r = describe(build(case["tree"], pool, mk_leaf), pool, "moves")
@@ -95,6 +110,7 @@ def main():
                 r["order"] = list(log)
         except Exception as e:  # noqa: BLE001
             r = {"error": type(e).__name__}
+        r["mutated_operands"] = sum(1 for obj, snap in INTER if elems(obj) != snap)
         out.append(r)
     json.dump({"results": out}, sys.stdout)
 
